@@ -47,6 +47,7 @@ type Obs struct {
 	HealthyOK  bool
 	HealthyErr string
 	Hang       string // "" | "run" | "later-run"
+	Unbounded  bool   // the cell was abandoned because the failure had been delivered more than fireBound times
 	Ms         int64
 	Stacks     string // goroutine dump when hung
 }
@@ -56,7 +57,15 @@ type line struct {
 	Obs   *Obs   `json:",omitempty"`
 }
 
-const hangAfter = 60 * time.Second
+// Hang watchdog: Run has not returned after hangAfter (normal: well under 1 s)
+// AND, from then on, there is a window of hangSilence in which no task RPC is
+// issued and the user function is not reached (so a run that is merely slow on
+// an overloaded host is not called a hang); at hangMax the cell is given up.
+const (
+	hangAfter   = 60 * time.Second
+	hangSilence = 20 * time.Second
+	hangMax     = 5 * time.Minute
+)
 
 func initKeys() {
 	for k := 1; len(p0keys) < 64 || len(p1keys) < 8; k++ {
@@ -78,18 +87,36 @@ func setChunk(n int) {
 	sortio.VerifCommonSetChunk(n)
 }
 
-func startSession(config string) *exec.Session {
+// calmSystem is verifsystem with relaxed keepalive timing. No machine is ever
+// killed in this check, so quick failure detection is not needed, and the
+// aggressive timing of verifsystem (20/60/30 ms) makes machines look dead when
+// the host is heavily loaded (which is machine loss -- property C02 -- and would
+// only blur the outcomes here).
+type calmSystem struct{ *vsys.System }
+
+func (calmSystem) KeepaliveConfig() (period, timeout, rpcTimeout time.Duration) {
+	return 2 * time.Second, 2 * time.Minute, time.Minute
+}
+
+func startSession(config string) (*exec.Session, *vsys.System) {
+	var sys *vsys.System
+	bm := func(procs int) exec.Option {
+		sys = vsys.New(procs)
+		return exec.Bigmachine(calmSystem{sys})
+	}
 	switch config {
 	case "local":
-		return exec.Start(exec.Local, exec.Parallelism(4))
+		return exec.Start(exec.Local, exec.Parallelism(4)), nil
 	case "vsys": // one machine, 7 procs
-		return exec.Start(exec.Bigmachine(vsys.New(8)), exec.Parallelism(7))
+		return exec.Start(bm(8), exec.Parallelism(7)), sys
 	case "vsysmulti": // up to four machines of one proc each
-		return exec.Start(exec.Bigmachine(vsys.New(2)), exec.Parallelism(4))
+		return exec.Start(bm(2), exec.Parallelism(4)), sys
 	case "vsysmc": // one machine: all tasks of a shard set share the machine's combine buffers
-		return exec.Start(exec.Bigmachine(vsys.New(8)), exec.Parallelism(7), exec.MachineCombiners)
+		return exec.Start(bm(8), exec.Parallelism(7), exec.MachineCombiners), sys
+	case "vsysmc1": // one machine with one proc
+		return exec.Start(bm(1), exec.Parallelism(1), exec.MachineCombiners), sys
 	case "vsysmc2": // two machines of one proc each
-		return exec.Start(exec.Bigmachine(vsys.New(1)), exec.Parallelism(2), exec.MachineCombiners)
+		return exec.Start(bm(1), exec.Parallelism(2), exec.MachineCombiners), sys
 	}
 	panic("c06: bad config " + config)
 }
@@ -182,17 +209,21 @@ func runCell(c *Cell, emit func(line)) {
 	o := &Obs{ID: c.ID}
 	emit(line{Begin: c.ID})
 	t0 := time.Now()
-	sess := startSession(c.Config)
-
+	sess, sys := startSession(c.Config)
+	activity := func() int64 {
+		st := &table[idx]
+		n := atomic.LoadInt64(&st.reached) + atomic.LoadInt64(&st.fired)
+		if sys != nil {
+			for _, m := range []string{"Worker.Run", "Worker.Compile", "Worker.Stat", "Worker.Read", "Worker.CommitCombiner"} {
+				n += int64(sys.Count(m))
+			}
+		}
+		return n
+	}
 	type r1 struct {
 		err  error
 		diff string
 	}
-	ch := make(chan r1, 1)
-	go func() {
-		err, diff := runProgram(sess, &s)
-		ch <- r1{err, diff}
-	}()
 	snapshot := func() {
 		st := &table[idx]
 		o.Reached, o.Fired = atomic.LoadInt64(&st.reached), atomic.LoadInt64(&st.fired)
@@ -204,45 +235,80 @@ func runCell(c *Cell, emit func(line)) {
 		st.mu.Unlock()
 		o.Ms = time.Since(t0).Milliseconds()
 	}
-	select {
-	case r := <-ch:
-		o.ErrNil = r.err == nil
-		if r.err != nil {
-			o.ErrText = trim(r.err.Error(), 600)
-			o.ErrHasMsg = strings.Contains(r.err.Error(), s.Msg)
+	// await waits for the program started by run. It returns ok=false if the run is
+	// to be called hung (see hangAfter) or, if bounded is set, retried without bound.
+	await := func(spec *Spec, bounded bool) (r r1, ok bool) {
+		ch := make(chan r1, 1)
+		go func() {
+			err, diff := runProgram(sess, spec)
+			ch <- r1{err, diff}
+		}()
+		var (
+			start    = time.Now()
+			tick     = time.NewTicker(20 * time.Millisecond)
+			lastAct  = activity()
+			lastTime = start
+		)
+		defer tick.Stop()
+		for {
+			select {
+			case r = <-ch:
+				return r, true
+			case <-tick.C:
+				// "retried a bounded number of times": once the failure has been delivered
+				// more often than the bound there is nothing to wait for. The run is
+				// still going on, so this process cannot be used any further.
+				if bounded && atomic.LoadInt64(&table[idx].fired) > fireBound {
+					o.Unbounded = true
+					return r, false
+				}
+				if time.Since(start) < hangAfter {
+					continue
+				}
+				if a := activity(); a != lastAct || lastTime.Before(start.Add(hangAfter)) {
+					lastAct, lastTime = a, time.Now()
+				}
+				if time.Since(lastTime) >= hangSilence || time.Since(start) >= hangMax {
+					return r, false
+				}
+			}
 		}
-		o.RowsOK, o.RowsDiff = r.diff == "", r.diff
-	case <-time.After(hangAfter):
-		o.Hang = "run"
+	}
+
+	r, ok := await(&s, true)
+	if !ok {
+		if !o.Unbounded {
+			o.Hang = "run"
+		}
 		o.Stacks = allStacks()
 		snapshot()
 		emit(line{Obs: o})
 		os.Exit(3)
 	}
+	o.ErrNil = r.err == nil
+	if r.err != nil {
+		o.ErrText = trim(r.err.Error(), 600)
+		o.ErrHasMsg = strings.Contains(r.err.Error(), s.Msg)
+	}
+	o.RowsOK, o.RowsDiff = r.diff == "", r.diff
 	snapshot()
 
 	// a second, healthy program in the same session
 	h := Spec{Case: (idx + 1) % len(table), Family: s.Family, Site: "none", Layout: "G", Mode: "none", Pers: "always",
-		Chunk: s.Chunk, N: s.N, Shard: 0, Target: -1, Bit: 63, Msg: "healthy"}
-	go func() {
-		err, diff := runProgram(sess, &h)
-		ch <- r1{err, diff}
-	}()
-	select {
-	case r := <-ch:
-		switch {
-		case r.err != nil:
-			o.HealthyErr = trim(r.err.Error(), 600)
-		case r.diff != "":
-			o.HealthyErr = "wrong rows: " + r.diff
-		default:
-			o.HealthyOK = true
-		}
-	case <-time.After(hangAfter):
+		Chunk: s.Chunk, N: s.N, Shard: 0, Target: -1, Mask: 0, Msg: "healthy"}
+	r, ok = await(&h, false)
+	switch {
+	case !ok:
 		o.Hang = "later-run"
 		o.Stacks = allStacks()
 		emit(line{Obs: o})
 		os.Exit(3)
+	case r.err != nil:
+		o.HealthyErr = trim(r.err.Error(), 600)
+	case r.diff != "":
+		o.HealthyErr = "wrong rows: " + r.diff
+	default:
+		o.HealthyOK = true
 	}
 	emit(line{Obs: o})
 	go sess.Shutdown()
